@@ -81,6 +81,8 @@ type parser struct {
 	tokens  <-chan item
 	backlog []item
 
+	lastLine int // line of the most recent token (for error messages)
+
 	fontInfo *sfnt.Font
 	cmap     cmap.Subtable
 	byName   map[string]glyph.ID
@@ -1343,7 +1345,11 @@ func (p *parser) readItem() item {
 		p.backlog = p.backlog[:n]
 		return item
 	}
-	return <-p.tokens
+	item := <-p.tokens
+	if item.line > 0 {
+		p.lastLine = item.line
+	}
+	return item
 }
 
 func (p *parser) peek() item {
@@ -1491,5 +1497,10 @@ func (err *parseError) Error() string {
 
 func (p *parser) fatal(format string, a ...interface{}) {
 	msg := fmt.Sprintf(format, a...)
-	panic(&parseError{next: p.peek(), msg: msg})
+	next := p.peek()
+	if next.line == 0 {
+		// no further token (the lexer has stopped): report the last known line
+		next.line = p.lastLine
+	}
+	panic(&parseError{next: next, msg: msg})
 }
